@@ -370,6 +370,77 @@ func runC02(p *load.Program, r *core.Report) {
 	c02Fallback(a, r, pushes)
 	c02SendAfter(a, r)
 	c02InitKick(a, r)
+	c02PushTruthful(a, r)
+}
+
+// c02PushTruthful: D7 — in every QueueMPSC implementation Push returns true only after the item was
+// linked into the list (head swap + next store), and returns false without having touched the list.
+func c02PushTruthful(a *Anchors, r *core.Report) {
+	rule := "C02.D7 push-result-truthful"
+	r.Floor(rule, 2)
+	qi, _ := a.QueueIface.Underlying().(*types.Interface)
+	for _, f := range funcsOfPkgs(a.P, "lib") {
+		if f.Parent() != nil || f.Name() != "Push" || f.Signature.Recv() == nil || qi == nil || !types.Implements(f.Signature.Recv().Type(), qi) {
+			continue
+		}
+		fn := fname(f)
+		key := "C02.D7|" + fn
+		inst := "Push reports true exactly when the item was enqueued"
+		isSwap := func(in ssa.Instruction) bool { cc := callCommon(in); return cc != nil && isAtomic(cc, "SwapPointer") }
+		isLink := func(in ssa.Instruction) bool { cc := callCommon(in); return cc != nil && isAtomic(cc, "StorePointer") }
+		var probs []string
+		eachInstr(f, func(in ssa.Instruction) {
+			ret, ok := in.(*ssa.Return)
+			if !ok {
+				return
+			}
+			bv, okb := constBool(ret.Results[0])
+			if !okb {
+				probs = append(probs, "the result is not a constant at "+a.P.Pos(ret.Pos()))
+				return
+			}
+			missSwap := reaches([]Point{{f.Blocks[0], 0}}, isSwap, func(i ssa.Instruction) bool { return i == ssa.Instruction(ret) }) != nil
+			missLink := reaches([]Point{{f.Blocks[0], 0}}, isLink, func(i ssa.Instruction) bool { return i == ssa.Instruction(ret) }) != nil
+			if bv && (missSwap || missLink) {
+				probs = append(probs, "true is returned at "+a.P.Pos(ret.Pos())+" on a path that did not enqueue the item (the message is dropped but the send reports success)")
+			}
+			if !bv {
+				// no enqueue on any path to a false return
+				var swapBefore bool
+				eachInstr(f, func(i2 ssa.Instruction) {
+					if isSwap(i2) && instrReachable(i2, ret) {
+						swapBefore = true
+					}
+				})
+				if swapBefore {
+					probs = append(probs, "false is returned at "+a.P.Pos(ret.Pos())+" after the item was enqueued (the message is handled although the send reported a full mailbox)")
+				}
+			}
+		})
+		// the enqueued item carries the pushed value
+		okVal := false
+		var par *ssa.Parameter
+		for _, pa := range f.Params {
+			if pa.Name() != f.Params[0].Name() {
+				par = pa
+			}
+		}
+		eachInstr(f, func(in ssa.Instruction) {
+			if st, ok := in.(*ssa.Store); ok && st.Val == ssa.Value(par) {
+				if _, fl := fieldOwner(st.Addr); fl == "value" {
+					okVal = true
+				}
+			}
+		})
+		if !okVal {
+			probs = append(probs, "the new item does not carry the pushed value")
+		}
+		if len(probs) > 0 {
+			r.Bad(rule, key, fn, a.P.Pos(f.Pos()), inst, strings.Join(uniq(probs), "; "))
+		} else {
+			r.OK(rule, key, fn, a.P.Pos(f.Pos()), inst, "true only after swap+link, false only before any enqueue")
+		}
+	}
 }
 
 // c02InitKick: D6 — messages accepted while the process was still initialising (state Init: the
